@@ -1,0 +1,300 @@
+//go:build verif
+
+package vgirpc
+
+import (
+	"encoding/base64"
+	"fmt"
+	"net/http/httptest"
+	"sort"
+	"strings"
+	"time"
+)
+
+// Verification hooks for property C13 (tokens are bound to identity and kind).
+// Add-only; compiled only with -tags verif.
+//
+// Every constant below is recovered by CALLING the real functions on probe
+// identities (never copied): if the framing of the associated data, a version
+// byte or a cache key changes, Gen/Consts.v changes and the proofs stated over
+// those names are re-checked.
+
+// --- thin adapters: the only places that name the real token functions -------
+// (if a signature changes, only these lines need to follow)
+
+func verifC13CursorAad(a *AuthContext) []byte { return stateTokenAad(a) }
+func verifC13CallAad(a *AuthContext) []byte   { return callTokenAad(a) }
+func verifC13PackCursor(h *HttpServer, callID string, state interface{}, a *AuthContext) ([]byte, error) {
+	return h.packCursorToken(callID, state, a)
+}
+func verifC13PackCall(h *HttpServer, callID string, a *AuthContext) ([]byte, error) {
+	return h.packCallToken(callID, nil, a, "verif-stream")
+}
+func verifC13OpenCursor(h *HttpServer, tok []byte, a *AuthContext) (*cursorTokenData, error) {
+	return h.openCursorToken(tok, a)
+}
+func verifC13Resolve(h *HttpServer, cur *cursorTokenData, callTok []byte, a *AuthContext) error {
+	_, err := h.resolveCall(cur, callTok, a)
+	return err
+}
+
+// verifC13StickySink builds the per-request sink the way
+// installStickyOnRequestNoCtx does for a request carrying VGI-Session-Accept.
+func verifC13StickySink(reg *sessionRegistry, key []byte, serverID string, a *AuthContext) *stickySink {
+	return &stickySink{registry: reg, tokenKey: key, serverID: serverID, auth: a,
+		acceptOpens: true, transport: TransportKindHTTP}
+}
+
+// verifC13StickyAad recovers the associated data the sticky-session path seals
+// under for identity a: a real token is minted through CallContext.OpenSession
+// and opened with openSessionToken under each AAD function the package has; the
+// one that opens it is the answer. nil when none does (the sticky path then uses
+// an AAD this hook does not know yet; aad_framing_ok becomes 0). Never panics:
+// a panic here would take the whole harness binary down.
+func verifC13StickyAad(a *AuthContext) []byte {
+	reg := newSessionRegistry(time.Minute)
+	key := []byte("0123456789abcdef0123456789abcdef")
+	sink := verifC13StickySink(reg, key, "verif-server", a)
+	ctx := &CallContext{stickySink: sink}
+	if err := ctx.OpenSession(struct{}{}, 0); err != nil {
+		return nil
+	}
+	for _, cand := range [][]byte{verifC13CursorAad(a), verifC13CallAad(a)} {
+		if _, _, _, err := openSessionToken(sink.mintedToken, key, cand); err == nil {
+			return cand
+		}
+	}
+	return nil
+}
+
+func verifLCP(a, b []byte) []byte {
+	n := 0
+	for n < len(a) && n < len(b) && a[n] == b[n] {
+		n++
+	}
+	return a[:n]
+}
+
+// verifC13Framing recovers (prefix, anonymous tail, auth tag byte, separator
+// byte) from one AAD function by probing it; ok reports whether every probe has
+// the shape prefix ++ (anonTail | tag ++ domain ++ sep ++ principal) the model
+// is written for.
+func verifC13Framing(aad func(*AuthContext) []byte) (prefix, anonTail, tag, sep string, ok bool) {
+	anon := aad(nil)
+	probe := aad(&AuthContext{Authenticated: true, Domain: "D", Principal: "P"})
+	p := verifLCP(anon, probe)
+	rest := probe[len(p):]
+	prefix, anonTail = string(p), string(anon[len(p):])
+	if len(rest) != 4 || rest[1] != 'D' || rest[3] != 'P' {
+		if len(rest) > 0 {
+			tag = string(rest[0:1])
+		}
+		return prefix, anonTail, tag, "", false
+	}
+	tag, sep, ok = string(rest[0:1]), string(rest[2:3]), true
+	for _, a := range []*AuthContext{
+		{Authenticated: true}, {Authenticated: true, Domain: "jwt", Principal: "a\x00b"},
+		{Authenticated: true, Domain: "", Principal: "anonymous"}, {Authenticated: true, Domain: "x", Principal: ""},
+	} {
+		if string(aad(a)) != prefix+tag+a.Domain+sep+a.Principal {
+			ok = false
+		}
+	}
+	for _, a := range []*AuthContext{{}, {Domain: "jwt", Principal: "alice"}} { // not Authenticated => anonymous
+		if string(aad(a)) != prefix+anonTail {
+			ok = false
+		}
+	}
+	return
+}
+
+// verifC13KeyFraming does the same for an identity-key function
+// (callStateIdentity, principalKeyFromAuth): anon constant and separator.
+func verifC13KeyFraming(f func(*AuthContext) string) (anon, sep string, ok bool) {
+	anon = f(nil)
+	probe := f(&AuthContext{Authenticated: true, Domain: "D", Principal: "P"})
+	if len(probe) != 3 || probe[0] != 'D' || probe[2] != 'P' {
+		return anon, "", false
+	}
+	sep, ok = probe[1:2], true
+	for _, a := range []*AuthContext{{Authenticated: true}, {Authenticated: true, Domain: "jwt", Principal: "a\x00b"}} {
+		if f(a) != a.Domain+sep+a.Principal {
+			ok = false
+		}
+	}
+	if f(&AuthContext{Domain: "jwt", Principal: "alice"}) != anon {
+		ok = false
+	}
+	return
+}
+
+type verifC13State struct{ N int64 }
+
+func verifC13FirstByte(tok string, enc *base64.Encoding) int64 {
+	raw, err := enc.DecodeString(tok)
+	if err != nil || len(raw) == 0 {
+		return -1
+	}
+	return int64(raw[0])
+}
+
+func init() {
+	RegisterStateType(verifC13State{})
+	verifConstProviders = append(verifConstProviders, func() []VerifConst {
+		ok := int64(1)
+		bad := func(c bool) {
+			if c {
+				ok = 0
+			}
+		}
+		pc, anonC, tagC, sepC, ok1 := verifC13Framing(verifC13CursorAad)
+		pk, anonK, tagK, sepK, ok2 := verifC13Framing(verifC13CallAad)
+		ps, anonS, tagS, sepS, ok3 := verifC13Framing(verifC13StickyAad)
+		// the model uses ONE identity framing for the three kinds
+		bad(!ok1 || !ok2 || !ok3)
+		bad(anonC != anonK || anonC != anonS || tagC != tagK || tagC != tagS || sepC != sepK || sepC != sepS)
+		ckAnon, ckSep, ok4 := verifC13KeyFraming(callStateIdentity)
+		pkAnon, pkSep, ok5 := verifC13KeyFraming(principalKeyFromAuth)
+		bad(!ok4 || !ok5)
+
+		// cache key = callID ++ join ++ callStateIdentity(auth): read it back from a real cache
+		c := newCallStateCache(4, time.Minute)
+		c.put("CID", nil, time.Now().Unix(), &resolvedCall{})
+		var key, join string
+		for k := range c.entries {
+			key = k
+		}
+		if strings.HasPrefix(key, "CID") && strings.HasSuffix(key, ckAnon) && len(key) >= 3+len(ckAnon) {
+			join = key[3 : len(key)-len(ckAnon)]
+		} else {
+			bad(true)
+		}
+
+		// version bytes, read off freshly minted real tokens
+		h := NewHttpServer(NewServer())
+		cur, err1 := verifC13PackCursor(h, "00", verifC13State{}, nil)
+		call, err2 := verifC13PackCall(h, "00", nil)
+		sink := verifC13StickySink(newSessionRegistry(time.Minute), h.tokenKey, "s", nil)
+		err3 := (&CallContext{stickySink: sink}).OpenSession(struct{}{}, 0)
+		bad(err1 != nil || err2 != nil || err3 != nil)
+		return []VerifConst{
+			verifBytes("aad_prefix_cursor", pc),
+			verifBytes("aad_prefix_call", pk),
+			verifBytes("aad_prefix_sticky", ps),
+			verifBytes("aad_anon_tail", anonC),
+			verifBytes("aad_auth_tag", tagC),
+			verifBytes("aad_sep", sepC),
+			verifBytes("ck_anon", ckAnon),
+			verifBytes("ck_sep", ckSep),
+			verifBytes("ck_join", join),
+			verifBytes("pk_anon", pkAnon),
+			verifBytes("pk_sep", pkSep),
+			verifNum("tokver_cursor", verifC13FirstByte(string(cur), base64.StdEncoding)),
+			verifNum("tokver_call", verifC13FirstByte(string(call), base64.StdEncoding)),
+			verifNum("tokver_sticky", verifC13FirstByte(sink.mintedToken, base64.RawURLEncoding)),
+			// 1 when every probe of tokenAad / callStateIdentity / principalKeyFromAuth / the
+			// cache key had the shape the model is written for (see the probes above)
+			verifNum("aad_framing_ok", ok),
+		}
+	})
+}
+
+// --- operations driven by the harness (hook level) ---------------------------
+
+// VerifC13Server is a real HttpServer plus what the hook-level driver needs.
+type VerifC13Server struct{ H *HttpServer }
+
+// VerifC13Aads returns the associated data of the three kinds for a.
+func VerifC13Aads(a *AuthContext) (cursor, call, sticky []byte) {
+	return verifC13CursorAad(a), verifC13CallAad(a), verifC13StickyAad(a)
+}
+
+// Init does what handleStreamInit does for the tokens: mints a call id, seals
+// the cursor and the call token for a (the latter warms the call-state cache).
+func (s *VerifC13Server) Init(a *AuthContext) (callID string, cursor, call []byte, err error) {
+	callID, err = newCallID()
+	if err != nil {
+		return
+	}
+	if cursor, err = verifC13PackCursor(s.H, callID, verifC13State{N: 1}, a); err != nil {
+		return
+	}
+	call, err = verifC13PackCall(s.H, callID, a)
+	return
+}
+
+// Continue does what handleStreamExchange does with the tokens: open the cursor,
+// resolve the call, and on success mint the next cursor for the same caller.
+func (s *VerifC13Server) Continue(a *AuthContext, cursor, call []byte) (ok bool, next []byte) {
+	if cursor == nil {
+		return false, nil
+	}
+	data, err := verifC13OpenCursor(s.H, cursor, a)
+	if err != nil {
+		return false, nil
+	}
+	if err := verifC13Resolve(s.H, data, call, a); err != nil {
+		return false, nil
+	}
+	next, err = verifC13PackCursor(s.H, data.CallID, data.State, a)
+	return err == nil, next
+}
+
+// ResolveRaw calls resolveCall with an UNAUTHENTICATED cursor naming callID
+// (component level: bypasses the cursor check that precedes it in the server).
+func (s *VerifC13Server) ResolveRaw(a *AuthContext, callID string, call []byte) bool {
+	return verifC13Resolve(s.H, &cursorTokenData{CreatedAt: time.Now().Unix(), CallID: callID}, call, a) == nil
+}
+
+// OpenSession mints a sticky session for a through CallContext.OpenSession.
+func (s *VerifC13Server) OpenSession(a *AuthContext) (string, error) {
+	if s.H.stickyRegistry == nil {
+		s.H.EnableSticky(time.Minute)
+	}
+	sink := verifC13StickySink(s.H.stickyRegistry, s.H.tokenKey, s.H.server.serverID, a)
+	if err := (&CallContext{stickySink: sink}).OpenSession(&verifC13State{N: 7}, 0); err != nil {
+		return "", err
+	}
+	return sink.mintedToken, nil
+}
+
+// Resume runs the real per-request sticky resolution for a request by a that
+// carries token in VGI-Session; true when a live session was resumed.
+func (s *VerifC13Server) Resume(a *AuthContext, token string) bool {
+	if s.H.stickyRegistry == nil {
+		s.H.EnableSticky(time.Minute)
+	}
+	r := httptest.NewRequest("POST", "/x", nil)
+	r.Header.Set(stickySessionHeader, token)
+	cleanup, err := s.H.installStickyOnRequestNoCtx(r, a)
+	defer cleanup.ReleaseLock()
+	return err == nil && cleanup.sink != nil && cleanup.sink.currentSession() != nil
+}
+
+// CacheKeys lists the call-state cache keys with call ids replaced by their
+// index in ids (canonical, for diagnostics).
+func (s *VerifC13Server) CacheKeys(ids []string) []string {
+	c := s.H.callStates
+	if c == nil {
+		return nil
+	}
+	c.mu.Lock()
+	defer c.mu.Unlock()
+	var out []string
+	for k := range c.entries {
+		for i, id := range ids {
+			if strings.HasPrefix(k, id) {
+				k = fmt.Sprintf("#%d%s", i, k[len(id):])
+				break
+			}
+		}
+		out = append(out, k)
+	}
+	sort.Strings(out)
+	return out
+}
+
+// VerifC13SessionHeaders exposes the sticky header names.
+func VerifC13SessionHeaders() (session, accept string) {
+	return stickySessionHeader, stickySessionAcceptHeader
+}
